@@ -48,6 +48,14 @@ def cases(thorough):
                 for d1 in ("f8", "f4", "i8"):
                     for s1 in ("3", "0d", "2x3"):
                         yield {"block": "cmp_bare", "op": op, "u1": u1, "d1": d1, "s1": s1, "kind": kind}
+        # ... the unit-less operand written on the left (numpy then hands the comparison of an ndarray or numpy scalar to the Array),
+        # through the numpy function, and boolean operands (masks) on either side: a number without a unit is a pure number wherever
+        # it stands, so it is compared as one with a pure-number Array and refused next to a dimensional one
+        for kind in ("int", "float", "nd", "nd0", "npfloat", "bool-Array", "bool-nd", "py-bool"):
+            for u1 in [us[-1] for us in fams.values()]:
+                for s1 in ("3", "0d"):
+                    for side, route in (("left", "operator"), ("right", "numpy"), ("left", "numpy")) + ((("right", "operator"),) if kind.startswith(("bool", "py-bool", "npfloat")) else ()):
+                        yield {"block": "cmp_bare", "op": op, "u1": u1, "d1": "f8", "s1": s1, "kind": kind, "side": side, "route": route}
     for op in ("and", "or", "xor", "not"):
         for s in ("4", "2x2", "0d"):
             for kind in ("Array", "nd", "bool"):
@@ -101,13 +109,18 @@ def run_case(acc, idx, c):
             v1 = _arr.values_for(sh1, dt1, 0, 0)
             a = A_(v1, unit=c["u1"])
             k = c["kind"]
-            b = {"int": 2, "float": 2.0, "nd0": np.array(2.0), "nd": np.full(sh1 or (1,), 2.0)}[k]
-            sh2 = np.shape(b)
+            pattern = np.resize(np.array([True, False, True]), sh1 or (1,))
+            b = {"int": 2, "float": 2.0, "nd0": np.array(2.0), "nd": np.full(sh1 or (1,), 2.0), "npfloat": np.float64(2.0),
+                 "bool-Array": A_(pattern.copy()), "bool-nd": pattern.copy(), "py-bool": True}[k]
+            sh2 = np.shape(b) if k != "bool-Array" else pattern.shape
             P1 = v1.astype(np.float64) * s1i
-            P2 = np.asarray(b, dtype=np.float64)
+            P2 = np.asarray(pattern if k == "bool-Array" else b, dtype=np.float64)
             compatible = tuple(d1i) == M2.dims_of()
             tol = 1e-12
         sa, sb = _arr.snapshot(a), _arr.snapshot(b)
+        if c.get("side") == "left":
+            # b (op) a
+            a, b, P1, P2, sa, sb = b, a, P2, P1, sb, sa
         try:
             r = op(a, b)
             raised = None
@@ -115,7 +128,7 @@ def run_case(acc, idx, c):
             r, raised = None, type(e).__name__
         if _arr.snapshot(a) != sa or _arr.snapshot(b) != sb:
             acc.violation(f"C07:operand-modified:{c['op']}", idx, c, {})
-        label = f"{c['op']}:{c.get('kind', 'Array')}"
+        label = f"{c['op']}:{c.get('kind', 'Array')}" + (f":unit-less-operand-on-the-{c['side']}:{c.get('route', 'operator')}" if "side" in c else "")
         if not compatible:
             if raised:
                 return "raises", True
@@ -208,7 +221,7 @@ def run(ctx):
     }
     return {"level": LEVEL, "coverage": cov, "violations": acc.violation_list(), "errors": acc.errors,
             "assumptions": ["elements within the rounding band of equality after conversion accept both verdicts",
-                            "the Array is the left operand, as in the statement", "M2 unit table"]}
+                            "an operand without a unit is a pure number on either side of the comparison", "M2 unit table"]}
 
 
 def replay_sigs(case):
